@@ -16,6 +16,8 @@ TxDefR == DefOf(TxR)
 MaxOps == 6
 Ops == Len(topo) + Cardinality(validated)
 Bound == Len(topo) <= 4 /\ Cardinality(validated) <= 2
+BoundQ == Len(topo) <= 3 /\ Cardinality(validated) <= 2
+BoundR == Len(topo) <= 3 /\ Cardinality(validated) <= 1
 
 View == <<body, final, lock, dlock, total, topo, validated>>
 
